@@ -106,8 +106,8 @@ ASSUMPTIONS = [
     "correctness is C11's subject); every other channel is written by hand in "
     "cq_sim from the box docstrings and the statement (Encode/MixedState are "
     "the Hilbert-Schmidt adjoints of Measure/Discard, hence unnormalised)",
-    "all wires have dimension 2 (bit, qubit); sums of circuits are not "
-    "generated",
+    "all wires have dimension 2 (bit, qubit); the only formal sums generated "
+    "are a pure circuit plus a mixed circuit of the same type (both orders)",
     "comparisons: |got - expected| <= 1e-9 * max(1, max|expected|) entry-wise",
     "the trace-preserving fragment is Ket, Bits, Encode() (a controlled "
     "preparation), unitary gates, the four Measure variants, Discard, Copy, "
@@ -820,6 +820,37 @@ def case_pure(rng, ctx):
     got, _ = res
     want = doubled(u.array, n_in, n_out)
     ctx.expect("doubling", close(got, want), **dict(info, **worst(got, want)))
+    # a formal sum of this pure circuit and a mixed circuit of the same type,
+    # evaluated without flags: the pure term is doubled before it is added
+    if ctx.index % 2 == 0:
+        Id, C = _Q["Id"], _Q["circuit"]
+        dephase = C.Measure() >> C.Encode()
+        if n_out:
+            k = rng.randrange(n_out)
+            other = circuit >> Id(ty(info["cod"][:k])) @ dephase\
+                @ Id(ty(info["cod"][k + 1:]))
+        elif n_in:
+            k = rng.randrange(n_in)
+            other = Id(ty(info["dom"][:k])) @ dephase\
+                @ Id(ty(info["dom"][k + 1:])) >> circuit
+        else:
+            other = circuit @ (_Q["gates"].Ket(0) >> _Q["gates"].H >> C.Discard())
+        info_o = info_of(other)
+        res_o = check_superoperator(ctx, other, info_o)
+        if res_o is not None:
+            for order, total in (("pure + mixed", lambda: circuit + other),
+                                 ("mixed + pure", lambda: other + circuit)):
+                ok, value = lib(ctx, "({}).eval()".format(order),
+                                lambda: total().eval(), info, other=info_o["circuit"])
+                if ok:
+                    target = np.asarray(want).reshape(-1)\
+                        + np.asarray(res_o[0]).reshape(-1)
+                    ctx.expect("doubling", type(value).__name__ == "CQMap"
+                               and close(value.array, target),
+                               call="({}).eval()".format(order),
+                               eval_returned=type(value).__name__,
+                               other=info_o["circuit"], **info)
+                    ctx.count("sums_of_a_pure_and_a_mixed_term_evaluated")
     # measure() of a pure circuit: |amplitude|^2 of (Ket(0..0) >> circuit)
     amp = np.asarray(u.array, dtype=complex).reshape(2 ** n_in, 2 ** n_out)[0]
     ok, array = lib(ctx, "measure", circuit.measure, info)
